@@ -46,3 +46,14 @@ package routing
 //@ ensures bp.bndl.PrimaryBlock.Destination != dtlsr.broadcastAddress && !has(dtlsr.routingTable, bp.bndl.PrimaryBlock.Destination) ==> len(sender) == 0
 //@ ensures bp.bndl.PrimaryBlock.Destination != dtlsr.broadcastAddress && len(sender) == 0 ==> !delete
 //@ loop 0 invariant 0 <= rangeindex + 1
+
+// A connected peer is listed with timestamp 0 (live link, cost zero) whether or not it was listed before, gets a
+// vertex, and the node's own link-state timestamp moves (so that the change is broadcast).
+// govc:func (*DTLSR).ReportPeerAppeared property C20
+//@ requires peer != nil && dtlsr.peers.Peers != nil && dtlsr.nodeIndex != nil && len(dtlsr.indexNode) == dtlsr.length && 0 <= dtlsr.length && dtlsr.length < 4611686018427387904
+//@ atreturn ok ==> has(dtlsr.peers.Peers, peerID) && dtlsr.peers.Peers[peerID] == 0 && has(dtlsr.nodeIndex, peerID) && dtlsr.peerChange
+
+// A lost peer stays listed with the time of the loss (cost = time since then).
+// govc:func (*DTLSR).ReportPeerDisappeared property C20
+//@ requires peer != nil && dtlsr.peers.Peers != nil
+//@ atreturn ok ==> has(dtlsr.peers.Peers, peerID) && dtlsr.peers.Peers[peerID] == dtlsr.peers.Timestamp && dtlsr.peerChange
